@@ -63,6 +63,9 @@ def one_job(vh, job):
         overlap = sum(1 for t in traces for a in t["calls"] for b in t["calls"] if a is not b and a["inv"] < b["inv"] < a["ret"])
         return {"traces": len(traces), "calls": sum(len(t["calls"]) for t in traces), "states": dist, "transitions": gen,
                 "overlapping_call_pairs": overlap, "cases": cases,
+                "late_monitors": sum(1 for t in traces for m in t["mons"] if m.get("late")),
+                "late_monitors_overlapping_a_call": sum(1 for t in traces for m in t["mons"] if m.get("late") and
+                                                        any(c["inv"] < m["ret"] and m["inv"] < c["ret"] for c in t["calls"])),
                 "sample": [{"c": c["c"], "inv": c["inv"], "ret": c["ret"], "ops": [o["op"] for o in c["ops"]], "committed": c["committed"]}
                            for c in traces[0]["calls"]]}
 
@@ -96,11 +99,15 @@ def run_check(prop, tier):
     cov.update({"states": cov["mc_states"] + sum(r["states"] for r in res), "transitions": cov["mc_transitions"] + sum(r["transitions"] for r in res),
                 "traces_validated_against_impl": sum(r["traces"] for r in res), "calls": sum(r["calls"] for r in res),
                 "overlapping_call_pairs": sum(r["overlapping_call_pairs"] for r in res),
+                "late_monitors": sum(r["late_monitors"] for r in res),
+                "late_monitors_overlapping_a_call": sum(r["late_monitors_overlapping_a_call"] for r in res),
                 "samples": [res[0]["sample"]], "known_findings_seen": verdict["known"],
                 "rule": "2-4 concurrent raw clients each issue 2-3 transactions (blind increments, optimistic read-modify-write with wait, insert-if-absent "
                         "on a unique index, reference moves with garbage collection, deletes) against one real server with a v1 and a v2 monitoring peer; TLC "
                         "searches for a serial order respecting real time in which Txn.tla reproduces every result, each monitor's message sequence is the "
-                        "sequence of differences in that order, and the final contents match"})
+                        "sequence of differences in that order, and the final contents match; one or two further monitors are established while the "
+                        "clients run (every other run behind a peer that is slow to acknowledge, which keeps transactions in flight): each must join the "
+                        "order at one point between its request and its reply, its initial contents being the database there"})
     write_evidence(prop, tier, "model_checking", cov, time.time() - t0, violations=len(verdict["violations"]),
                    assumptions=["a failed call is placed without effect (its rejection is not judged here)"])
     return verdict
